@@ -311,6 +311,32 @@ def h_expm_pade(ctx, q, n, D, P):
             ctx.eq(lhs[d], U[d] + Vv[d], '(-U+V) expm_pade(A, %d) == U+V order %d dir %d' % (q, d, p))
 
 
+def h_expm_higham(ctx, norm):
+    """algopy.expm_higham_2005 (the Pade order is chosen from the 1-norm of the base matrix: a
+    data-dependent threshold chain) at a base matrix of the given 1-norm: zeroth coefficient ==
+    scipy.linalg.expm, first coefficient == scipy.linalg.expm_frechet, to 1e-10 relative.
+    Concrete matrices: decided on the float build (P = 1; norms below 2.09, where no squaring
+    is needed)."""
+    import scipy.linalg
+    from fractions import Fraction
+    algopy = symx.load_algopy()
+    if ctx.mode == 'sym':
+        ctx.fact(True, 'concrete matrices: decided on the float build')
+        ctx.eq(S.const(0), S.const(0), 'expm_higham_2005 at 1-norm %s' % norm)
+        return
+    B0 = np.array([[0.3, -0.5, 0.2], [0.1, 0.4, -0.6], [-0.7, 0.2, 0.1]])
+    B0 = B0 * (float(Fraction(norm)) / np.linalg.norm(B0, 1))
+    B1 = np.array([[1.0, 0.5, -0.25], [0.0, -1.0, 2.0], [0.75, 0.25, 1.5]])
+    A = algopy.UTPM(np.array([B0, B1]).reshape((2, 1, 3, 3)))
+    R = algopy.expm_higham_2005(A)
+    E0 = scipy.linalg.expm(B0)
+    E1 = scipy.linalg.expm_frechet(B0, B1, compute_expm=False)
+    for d, ref in ((0, E0), (1, E1)):
+        err = np.max(np.abs(np.asarray(R.data[d, 0]) - ref)) / np.max(np.abs(ref))
+        ctx.fact(err < 1e-10, 'expm_higham_2005, 1-norm %s: coefficient %d within 1e-10 of SciPy (relative error %.2e)' % (norm, d, err))
+    ctx.eq(np.asarray(A.data[0, 0]), B0, 'operand unchanged')
+
+
 def units(tier, seed):
     out = []
     opts = {'property': PROP, 'path_budget': 300, 'validate_paths': 4}
@@ -391,6 +417,8 @@ def units(tier, seed):
         add('expm_pade(q=%d)/1x1/D3,P2' % q, 'h_expm_pade', q=q, n=1, D=3, P=2)
     for q in (3, 5):
         add('expm_pade(q=%d)/2x2/D2,P1' % q, 'h_expm_pade', o={'unit_timeout': 600}, q=q, n=2, D=2, P=1)
+    for nrm in ('1/100', '1/10', '1/2', '3/2', '2'):
+        add('expm_higham_2005/3x3 at 1-norm %s (float-decided)' % nrm, 'h_expm_higham', norm=nrm)
     if tier != 'quick':
         add('expm/2x2/D2,P2', 'h_expm', o={'unit_timeout': 900}, n=2, D=2, P=2)
         add('inv/2x2/D6,P1', 'h_inv', n=2, D=6, P=1)
